@@ -20,7 +20,6 @@ theorem doAnnounce_cases (ss : Session) (r : Request) :
 theorem setupMedia_cases (cfg : Config) (ss : Session) (r : Request) (t : TrAlt) :
     (setupMedia cfg ss r t).2.status = 200 ∨ (setupMedia cfg ss r t).1 = ss := by
   unfold setupMedia
-  dsimp only
   repeat' split
   all_goals first | (right; rfl) | (left; rfl)
 
@@ -218,8 +217,8 @@ theorem wellformed_ok (cfg : Config) (ss : Session) (c : Nat) (r : Request)
     unfold setupMedia
     simp only [h5]
     by_cases hr : ss.state = .preRecord
-    · simp_all
-    · simp_all
+    · simp_all [mediaFound]
+    · simp_all [mediaFound]
   · obtain ⟨h1, h2⟩ := hw
     unfold doPlay
     cases hs : ss.state <;> simp_all <;> (repeat' split) <;> simp_all
